@@ -6,6 +6,9 @@
  *                          every "chunk s<k> .." / "wpat s<k> .." op removed (unsegmented
  *                          transfer: one read delivers everything queued, every write is
  *                          accepted whole)
+ *     <k> VARIANT nopw     only for histories with pendingwritecb=1: the history as written
+ *                          but without the pending-write callback (writes are not deferred;
+ *                          the flushwrites ops become no-ops)
  * The model driver (ocaml/c20_drv.ml) compares the two logs (metamorphic oracle) and checks
  * each of them against the extracted framing model. */
 #include <stdio.h>
@@ -17,6 +20,37 @@
 static int starts(const char *s, const char *p)
 {
   return strncmp(s, p, strlen(p)) == 0;
+}
+
+/* remove one configuration item (exact token) */
+static char *without_item(const char *line, const char *item)
+{
+  size_t      n   = strlen(line);
+  char       *out = malloc(n + 2);
+  const char *bar = strchr(line, '|');
+  const char *p   = line;
+  size_t      il  = strlen(item);
+  size_t      o   = 0;
+  if (bar == NULL) {
+    bar = line + n;
+  }
+  while (p < bar) {
+    const char *e = p;
+    while (e < bar && *e != ' ' && *e != '\t') {
+      e++;
+    }
+    if (!((size_t)(e - p) == il && strncmp(p, item, il) == 0)) {
+      memcpy(out + o, p, (size_t)(e - p));
+      o += (size_t)(e - p);
+      out[o++] = ' ';
+    }
+    while (e < bar && (*e == ' ' || *e == '\t')) {
+      e++;
+    }
+    p = e;
+  }
+  strcpy(out + o, bar);
+  return out;
 }
 
 /* remove chunk=/wpat= config items and chunk/wpat ops */
@@ -77,6 +111,16 @@ static void run_case(long k, char *line)
   printf("%ld VARIANT plain\n", k);
   sim_run_case(k, plain);
   free(plain);
+  {
+    const char *bar = strchr(line, '|');
+    const char *pw  = strstr(line, "pendingwritecb=1");
+    if (pw != NULL && (bar == NULL || pw < bar)) {
+      char *nopw = without_item(line, "pendingwritecb=1");
+      printf("%ld VARIANT nopw\n", k);
+      sim_run_case(k, nopw);
+      free(nopw);
+    }
+  }
 }
 
 int main(int argc, char **argv)
